@@ -202,6 +202,29 @@ theorem failed_finalize_closes (o : WOpts) (s : Store) (flt : Fault) (evs : List
   simp only [hv2, hopen.1, hopen.2, he, hfire, ↓reduceIte, Bool.false_eq_true, false_or, and_false]
   cases s.api <;> simp
 
+/-- (5b) A failed `FinalizeReadOnly` (read-write blockstore, CARv2 mode, fault on any of its writes) returns
+    an error and leaves the store finalized but open; from then on **no finalizing call and no write
+    reports success**: a second `FinalizeReadOnly` and `Finalize` are refused, `Put` is refused (lookups
+    still answer from what is on disk). -/
+theorem failed_finalizeRO_then_refused (o : WOpts) (s : Store) (flt : Fault) (evs : List WriteEv)
+    (hv2 : o.v1 = false) (hapi : s.api = .blockstore) (hopen : s.finalized = false ∧ s.closed = false)
+    (he : s.finalizeEvs o = some evs) (hfire : flt.call < evs.length) (c : Cid) (d : Bytes) :
+    let s' := (s.finalizeROF o (some flt)).1
+    (s.finalizeROF o (some flt)).2.1 = .err .other ∧ s'.finalized = true ∧ s'.closed = false ∧
+    (s'.step o .finalizeRO).2.1 = .err .finalized ∧
+    (s'.step o .finalize).2.1 = .err .finalized ∧
+    (s'.step o (.put c d)).2.1 = .err .finalized := by
+  have h : s.finalizeROF o (some flt)
+      = ({ s.applyEvs (faultyPrefix evs flt) with finalized := true }, .err .other, faultyPrefix evs flt) := by
+    unfold Store.finalizeROF
+    simp [hv2, hopen.1, hopen.2, hapi, he, hfire]
+  simp only [h]
+  refine ⟨trivial, trivial, ?_, ?_, ?_, ?_⟩
+  · simp [Store.applyEvs, hopen.2]
+  · simp [Store.step, Store.applyEvs, hapi, Store.stepBlockstore, Store.finalizeRO, hv2, hopen.2]
+  · simp [Store.step, Store.applyEvs, hapi, Store.stepBlockstore, Store.finalizeRO, Store.closeInner, hv2, hopen.2]
+  · simp [Store.step, Store.applyEvs, hapi, Store.stepBlockstore, hopen.2]
+
 /-- Non-vacuity: a fault on the CID write of a Put into a fresh store meets (1)'s premises. -/
 example : let o : WOpts := {}
     let s := (Store.create .storage o none).1
